@@ -1113,6 +1113,20 @@ class SymMixin:
                        len=Sym(("len", ("contents", s.uid, len(run.effects))), "int", lo=0))
         if name == "tell":
             run.emit("tell", s, site)
+            # position of a local buffer = sum of the constant-size exact reads/writes performed on it so far
+            pos, known = 0, s.kind == "local"
+            for e in run.effects:
+                if len(e) > 1 and e[1] is s:
+                    if e[0] == "xread" and isinstance(e[2], int):
+                        pos += e[2]
+                    elif e[0] in ("alloc", "tell", "getvalue"):
+                        pass
+                    elif e[0] == "seek" and isinstance(e[2], int):
+                        pos = e[2]
+                    else:
+                        known = False
+            if known:
+                return pos
             return Sym(("tell", s.uid, len(run.effects)), "int", lo=0, tell_of=s, snapshot=len(run.effects))
         if name == "seek":
             run.emit("seek", s, a[0] if a else None, site)
